@@ -243,15 +243,17 @@ func (s *supARFO) childTerminated(name gen.Atom, pid gen.PID, reason error) supA
 			}
 
 		} else {
-			if len(s.wait) > 0 {
-				// must be 0
-				panic(gen.ErrInternal)
-			}
-
 			if specI < s.restartI {
 				// terminated child is not among we are waiting for termination.
 				// update the position
 				s.restartI = specI
+			}
+
+			if len(s.wait) > 0 {
+				// this child has terminated by itself while the one we asked
+				// to stop is still terminating. keep waiting for that one
+				action.do = supActionTerminateChildren
+				return action
 			}
 
 			terminate := s.childrenForTermination()
